@@ -172,15 +172,21 @@ fn run_body(h: &mut H, r: &mut Rng, prof: &Profile) {
             h.op_find(wi, q, r.chance(50), k, set, fault);
         } else if c < 94 {
             if prof.multi_world {
-                if let Some(dst) = (0..NW).find(|i| h.worlds[*i].is_none()) {
+                let other: Vec<usize> = existing.iter().copied().filter(|x| *x != wi).collect();
+                if !other.is_empty() && r.chance(35) {
+                    // overwrite an existing world through Clone::clone_from (may recycle allocations)
+                    let dst = other[r.below(other.len() as u64) as usize];
+                    h.begin("clone_from");
+                    h.op_clone_from(wi, dst);
+                } else if let Some(dst) = (0..NW).find(|i| h.worlds[*i].is_none()) {
                     let fault = if prof.faults && r.chance(25) { Some(r.below(6) as u32) } else { None };
                     h.begin("clone");
-            h.op_clone(wi, dst, fault);
+                    h.op_clone(wi, dst, fault);
                 } else {
                     let victim = existing[r.below(existing.len() as u64) as usize];
                     let fault = if prof.faults && r.chance(25) { Some(r.below(6) as u32) } else { None };
                     h.begin("drop");
-            h.op_drop(victim, fault);
+                    h.op_drop(victim, fault);
                 }
             }
         } else if c < 96 {
